@@ -11,6 +11,7 @@ cells (they hold nothing; values computed through them are the specification's).
 """
 import collections
 import itertools
+import re
 
 from .. import core
 from .. import structworld as W
@@ -37,14 +38,22 @@ RULE = ("one history of 14-28 edits/evaluations replayed under k assignments of 
         "least one evaluation through an uncached cells whose value later changed after an edit")
 
 
-def replay_with_flags(ops, flags, base=False):
+def replay_with_flags(ops, flags, base=False, meta=None):
     """-> list of eval results; flags: name -> bool.  `flip name` ops change the assignment at
     that point of the history (the flag of every *defined* cells of that name is switched); the
-    all-cached base run ignores them"""
+    all-cached base run ignores them.  meta (a list): per `eval` result (name, cached flag, formula source of the
+    cells asked), and at the end a dict query-prefix "S.c" -> the same (what `classify` reads)"""
     close_all()
     live = W.Live("M")
     res = []
     flags = dict(flags)
+
+    def about(path, cn):
+        try:
+            c = live.space(path).cells[cn]
+            return (cn, bool(c.is_cached), c.formula.source)
+        except Exception:
+            return (cn, None, None)
     try:
         for op in ops:
             if op[0] == "evalall":
@@ -57,6 +66,8 @@ def replay_with_flags(ops, flags, base=False):
                         if op[1] in s.cells and not s.cells[op[1]]._is_derived():
                             live.apply(["set_cached", path, op[1], int(flags[op[1]])])
                 continue
+            if op[0] == "eval" and meta is not None:
+                meta.append(about(op[1], op[2]))
             r = live.apply(op)
             if op[0] in ("new_cells", "set_formula") and r == "ok":
                 live.apply(["set_cached", op[1], op[2], int(flags.get(op[2], True))])
@@ -69,6 +80,8 @@ def replay_with_flags(ops, flags, base=False):
                 for cn, c in s.cells.items():
                     if not c.is_cached and len(c):
                         res.append("UNCACHED-HOLDS %s.%s" % (path, cn))
+        if meta is not None:
+            meta.append({"%s.%s" % (path, cn): about(path, cn) for path, sp in W.all_spaces(live.m) for cn in list(sp.cells)})
         res.append(("final", tuple(sorted(S.eval_everything(live).items()))))
     finally:
         live.close()
@@ -117,9 +130,22 @@ def gen_ops(rng):
 KNOWN_DELSPACE = "C09-deleted-space-uncached-cells"
 
 
-def classify(ops, flags, pairs):
+KNOWN_CAUGHT = "C09-caught-failure-untracked"
+CATCH_RE = re.compile(r"except \(NameError, AttributeError, TypeError\):\s+return (-\d+)")
+
+
+def classify(ops, flags, pairs, asked=None):
     """known findings are recognised by their specific trigger.  pairs: the differing observations
-    (under the assignment, all cached)"""
+    (under the assignment, all cached); asked: for each of them (name, cached flag under the assignment,
+    formula source) of the cells that was asked"""
+    if pairs and asked and len(asked) == len(pairs) and all(
+            who[1] is False and who[2] and CATCH_RE.search(who[2]) and str(b) == "ok " + CATCH_RE.search(who[2]).group(1)
+            and str(a) != str(b) for (a, b), who in zip(pairs, asked)):
+        # every differing observation is the answer of an UNCACHED cells whose formula catches the failure of a callee,
+        # where the all-cached run returns the default of the `except` branch: that run holds the default computed
+        # while the callee failed - modelx records no dependency on a callee that failed (C02-caught-failure-untracked),
+        # so the edit that made the callee succeed did not clear it - and the uncached cells simply ran again
+        return KNOWN_CAUGHT
     if pairs and all(str(b).startswith("err Formula Deleted") and str(a).startswith("ok") for a, b in pairs):
         # a space holding an uncached cells was deleted: BaseSpaceImpl.on_delete clears the values the cells of
         # the space hold, an uncached cells holds none, and its object node - with the values cached callers
@@ -150,7 +176,8 @@ def check_history(ops, out, stats, assignments):
             stats["replays_skipped_same_run"] += 1
             continue
         seen.add(proj)
-        got = replay_with_flags(ops, flags)
+        meta = []
+        got = replay_with_flags(ops, flags, meta=meta)
         stats["replays"] += 1
         if any(isinstance(r, str) and r.startswith("UNCACHED-HOLDS") for r in got):
             out.fail("an uncached cells holds values (%s)" % [r for r in got if str(r).startswith("UNCACHED")][0],
@@ -162,6 +189,7 @@ def check_history(ops, out, stats, assignments):
             idx = next((i for i, (a, b) in enumerate(zip(got, base)) if a != b), None)
             a, b = (got[idx], base[idx]) if idx is not None else (len(got), len(base))
             pairs = [(a, b)]
+            asked = [meta[idx]] if idx is not None and idx < len(meta) - 1 else None
             if isinstance(a, tuple):
                 da, db = dict(a[1]), dict(b[1])
                 diff = {q: (da[q], db.get(q)) for q in da if da[q] != db.get(q)}
@@ -169,10 +197,12 @@ def check_history(ops, out, stats, assignments):
                 if all("Deep" in str(v) for v in diff.values()):
                     continue
                 pairs = list(diff.values())
+                asked = [meta[-1].get(q.split("(")[0].split("[")[0] if "[" not in q else "", (None, None, None))
+                         for q in diff] if meta and isinstance(meta[-1], dict) else None
             if "Deep" in str(a) or "Deep" in str(b):
                 continue
             out.fail("results differ between the cached-flag assignment %s and all-cached: %s vs %s" % (flags, a, b),
-                     dict(S.hist_json(ops), flags=flags), key=classify(ops, flags, pairs))
+                     dict(S.hist_json(ops), flags=flags), key=classify(ops, flags, pairs, asked))
         if not all(fl) and changed:
             nontrivial = True
     return nontrivial
@@ -282,11 +312,15 @@ def run(ctx, out):
     allassign = list(itertools.product([True, False], repeat=len(W.CELLS)))
     nontrivial, samples = 0, []
     hists = S.load_corpus("C09")
+    ncorpus = len(hists)
     for i in range(n):
         hists.append(gen_ops(ctx.rng("hist", i)))
     for i, ops in enumerate(hists):
-        rng = ctx.rng("assign", i)
-        if ctx.tier == "thorough" or i % 2 == 0:
+        # corpus histories run under every assignment; the numbering of the random ones does not depend on the
+        # number of corpus files
+        j = i - ncorpus + 1
+        rng = ctx.rng("assign", j)
+        if ctx.tier == "thorough" or i < ncorpus or j % 2 == 0:
             assignments = allassign[1:]
         else:
             assignments = [allassign[-1]] + rng.sample(allassign[1:-1], 4)
